@@ -26,7 +26,7 @@ BOUNDS = {
                  'unbounded': ['reassignment ids (< T+2)', 'metadata integer and real values', 'recording length']},
 }
 ASSUMPTIONS = [
-    'operations: save_spike_clusters(symbolic reassignment), save_metadata for an integer field (twice, with '
+    'operations: save_spike_clusters(symbolic reassignment), save_spike_clusters(the assignment the dataset was created with), save_metadata for an integer field (twice, with '
     'different key sets), a string field with a None entry, a real-valued field; writing a valid foreign TSV and '
     'CSV; writing malformed files (empty, header only, ragged row, no cluster_id column); exporting the '
     'spike-waveform subset (when raw data exist); close + reload.  The operation sequence is solver-enumerated.',
@@ -39,7 +39,7 @@ OUTSIDE = ['byte formats of npy/TSV (replays run the same histories on a real di
 WITNESS_CAP = {'quick': 25, 'thorough': 50}
 LOOP_BOUND = 16
 
-OPS = ['save_clusters', 'meta_int_a', 'meta_int_b', 'meta_str', 'meta_real', 'foreign_tsv', 'foreign_csv',
+OPS = ['save_clusters', 'save_original', 'meta_int_a', 'meta_int_b', 'meta_str', 'meta_real', 'foreign_tsv', 'foreign_csv',
        'malformed', 'subset', 'reload']
 MALFORMED = ['', 'cluster_id\tbad\n', 'cluster_id\tbad\n1\n2\tx\ty\n', 'foo\tbar\n1\t2\n']
 
@@ -71,6 +71,11 @@ def apply_op(op, i, e, m, ds, ref, d, vals, real=False):
     T = ds_cfg(ds)['T']
     if op == 'save_clusters':
         new = vals['sc']
+        arr = np.array(new, dtype=np.int32) if real else snp.ndarray(snp._fromlist(new, (len(new),)), 'int32')
+        m.save_spike_clusters(arr)
+        ref.sc = list(new)
+    elif op == 'save_original':
+        new = list(ds.sc)
         arr = np.array(new, dtype=np.int32) if real else snp.ndarray(snp._fromlist(new, (len(new),)), 'int32')
         m.save_spike_clusters(arr)
         ref.sc = list(new)
